@@ -122,6 +122,19 @@ def check_sf_structure(ctx):
     for s in fv.statements():
         if isinstance(s, ast.Assign) and isinstance(s.value, ast.BinOp) and isinstance(s.value.op, ast.Div) and ffts and any(x is ffts[0] for x in ast.walk(fv.expand(s.value, s))) is False:
             pass
+    # the transform is used as computed: a local holding it is not written in place (Nyquist plane zeroed, modes masked) — modes removed
+    # from the numerator while the normalisation still counts the whole field break Parseval's sum on the affected grids
+    fft_locals = {s_.targets[0].id for s_ in fv.statements() if isinstance(s_, ast.Assign) and len(s_.targets) == 1 and isinstance(s_.targets[0], ast.Name)
+                  and isinstance(s_.value, ast.Call) and "fft" in U(s_.value.func).lower()}
+    for s_ in fv.statements():
+        tg_ = s_.targets if isinstance(s_, ast.Assign) else ([s_.target] if isinstance(s_, ast.AugAssign) else [])
+        for t_ in tg_:
+            r_ = t_
+            while isinstance(r_, (ast.Subscript, ast.Attribute)):
+                r_ = r_.value
+            if isinstance(t_, (ast.Subscript, ast.Attribute)) and isinstance(r_, ast.Name) and r_.id in fft_locals:
+                ctx.violate("RAWDATA", SF + ":modulus", (fi, s_), f"`{U(s_)[:70]}` modifies the Fourier transform in place before the squared modulus is taken: modes are removed from the numerator "
+                            "while the normalisation still counts the whole field, so the spectrum no longer sums to 1 − mean²·N/Σf² (Parseval) — on grids with an even axis for a zeroed Nyquist plane")
     # normalisation: the assignment that divides |f|^2 (temporaries resolved)
     cand = [s for s in fv.statements() if isinstance(s, ast.Assign) and not isinstance(s.value, ast.Name) and isinstance(fv.expand(s.value, s), ast.BinOp) and isinstance(fv.expand(s.value, s).op, ast.Div) and "abs" in U(fv.expand(s.value, s))
             and "fft" in U(fv.expand(s.value, s))]
@@ -135,7 +148,20 @@ def check_sf_structure(ctx):
                    f"the spectrum is normalised by `{U(den)[:70]}`; expected the sum of squares of {data}")
         num = full.left
         okm = U(num).replace(" ", "") in (f"np.abs(np_fftn({data},norm='ortho').flat[1:])**2",)
-        ctx.decide(okm, "RAWDATA", SF + ":modulus", (fi, s), "squared modulus of every non-zero Fourier mode (non-negative)", f"numerator is `{U(num)[:80]}`, not |f|² of the modes without the zero mode")
+        if not okm:
+            # the transform stored in a local that is modified in place before the modulus is taken (Nyquist plane zeroed, modes masked)
+            from ..astutil import value_cases as _vc
+
+            try:
+                alts = [U(v_) for _d, v_ in _vc(fv, s, s.value)]
+            except Exception:  # noqa: BLE001
+                alts = []
+            if any("__modified_in_place__" in a_ and "np_fftn" in a_ for a_ in alts):
+                ctx.violate("RAWDATA", SF + ":modulus", (fi, s), "the Fourier transform is modified in place before the squared modulus is taken: modes are removed from the numerator while the "
+                            "normalisation still counts the whole field, so the spectrum no longer sums to 1 − mean²·N/Σf² (Parseval) on the affected grids")
+                okm = None
+        if okm is not None:
+          ctx.decide(okm, "RAWDATA", SF + ":modulus", (fi, s), "squared modulus of every non-zero Fourier mode (non-negative)", f"numerator is `{U(num)[:80]}`, not |f|² of the modes without the zero mode")
     else:
         ctx.undecided("RAWDATA", SF + ":normalisation", fi, "normalisation statement not recognised")
     # ---- INDEXAGREE: per-axis wave numbers: component i = fftfreq(shape[i], spacing[i]/2π)², whatever the iteration is spelled like
